@@ -20,6 +20,8 @@ DECLINED = ["'runs exactly once per resume' over histories with user-defined sch
 ASSUMPTIONS = ["C02 A1-A5: the assembly runs the callback after saving the old context"]
 RULES_DOC = dict(common.SHARED_DOC)
 RULES_DOC["R7"] = "= C12.R3: a unit that is suspending is never terminated inside its suspend callback (only yield-family callbacks may honour a cancel request)"
+RULES_DOC["R8"] = "the directed-yield entry points that document ABT_ERR_INV_THREAD for the caller itself reach their switch primitive only after an effective test that the target is not the caller (a unit that switches to itself is RUNNING and queued at once)"
+RULES_DOC["R9"] = "= C01.R5: a yield-family callback pushes the caller back iff it was not cancelled (a terminated unit is never re-queued)"
 RULES_DOC.update({
     "R1": "= C02.R3: suspend callbacks publish BLOCKED before anything that lets a waker run",
     "R2": "resume: READY -> push -> un-count; ABT_thread_resume acts only on a unit observed BLOCKED (acquire)",
@@ -361,6 +363,25 @@ def rule_R6(P, rep):
     rep.min_instances("R6", 4)
 
 
+def rule_R8(P, rep):
+    from abtverif import ctrldep
+    for fn, file, prim in (("ABT_self_yield_to", "src/self.c", "ABTI_ythread_yield_to"),
+                           ("ABT_thread_yield_to", "src/thread.c", "ABTI_ythread_thread_yield_to")):
+        F = P.fn(fn, file)
+        tp = F.params[0]["n"]
+        sites = [i for _b, i in F.calls(prim)]
+        rep.need(sites, "%s does not call %s" % (fn, prim))
+        for i in sites:
+            conds = ctrldep.conditions(F, i)
+            ok = any(lab.count("==") == 1 and ("ABTI_thread_get_ptr(%s)" % tp) in lab and not val and
+                     ("p_thread" in lab.split("==")[0 if ("ABTI_thread_get_ptr(%s)" % tp) in lab.split("==")[1] else 1] or
+                      "ythread" in lab.split("==")[0 if ("ABTI_thread_get_ptr(%s)" % tp) in lab.split("==")[1] else 1])
+                     for lab, val, _a in conds)
+            rep.ob("R8", "%s switches only after testing that the target is not the caller" % fn, ok,
+                   "no governing `target == caller` test (false) before %s: %s" % (prim, [c[0] for c in conds][:6]),
+                   loc=F.loc(i), site="%s/self-target" % fn)
+
+
 def run(P, rep, tier):
     common.run_shared(P, rep, which=("X1",))
     sub = type(rep)(rep.prop, rep.tier, rep.variant)
@@ -376,3 +397,6 @@ def run(P, rep, tier):
         rep.ob("R5", "[C06.%s] %s" % (o["rule"], o["instance"]), o["ok"], o["detail"], o["loc"], site="R5/" + o["instance"][:150])
     rule_R6(P, rep)
     common.borrow(rep, P, C12.rule_R3, "R7")
+    rule_R8(P, rep)
+    from . import C01
+    common.borrow(rep, P, C01.rule_R5, "R9")
